@@ -152,6 +152,14 @@ def judge(sh: Shard, stem, ref, rig, block, value, expect, neighbours, keyp):
         if len(cap) != 1:
             sh.violation(f"{keyp}:emit-count", f"{len(cap)} device writes emitted for one write of {stem}/{ref.tag} via {path}", {"cap": cap, "value": value})
             continue
+        # the same request again, at once, nothing in between (the spa acknowledged but did not act, the
+        # user presses again): it is a write like any other - the same device write goes out again
+        STATE["n"] = STATE.get("n", 0) + 1
+        if STATE["n"] % 4 == 0:
+            cap2, exc2 = rig.write(path, ref.tag, value)
+            sh.count("writes_repeated_at_once")
+            if exc2 is not None or cap2 != cap:
+                sh.violation(f"{keyp}:repeat-differs", f"{stem}/{ref.tag}: the same write of {value!r} repeated at once via {path} gives {('raised ' + type(exc2).__name__) if exc2 else cap2!r}, the first time {cap!r}", {"module": stem, "item": ref.tag, "path": path, "value": value})
         kind, pos, length, val = cap[0]
         if kind != ("A" if path.startswith("async") else "S"):
             sh.violation(f"{keyp}:wrong-delegate", f"{path} used the other delegate", {"cap": cap})
@@ -180,16 +188,6 @@ def judge(sh: Shard, stem, ref, rig, block, value, expect, neighbours, keyp):
                     sh.violation(f"{keyp}:neighbour-changed", f"write to {stem}/{ref.tag} changed disjoint item {ntag} from {before!r} to {after!r}", dict(w, neighbour=ntag))
         finally:
             rig.set_block(block)
-    # the same request again, at once (the spa acknowledged but did not act, the user presses again):
-    # it is a write like any other - the same device write goes out again
-    STATE["n"] = STATE.get("n", 0) + 1
-    if ref.rw is not None and STATE["n"] % 4 == 0 and "async/GeckoAsyncStructure" in tuples:
-        for path in ("async/GeckoAsyncStructure", "sync/GeckoAsyncStructure"):
-            cap, exc = rig.write(path, ref.tag, value)
-            sh.count("writes_repeated_at_once")
-            again = tuple(cap[0][1:]) if (exc is None and len(cap) == 1) else ("raised " + type(exc).__name__ if exc else f"{len(cap)} writes")
-            if again != tuples.get(path):
-                sh.violation(f"{keyp}:repeat-differs", f"{stem}/{ref.tag}: the same write of {value!r} repeated at once via {path} gives {again!r}, the first time {tuples.get(path)!r}", {"module": stem, "item": ref.tag, "path": path, "value": value})
     if len(set(tuples.values())) > 1:
         sh.violation(f"{keyp}:paths-differ", f"{stem}/{ref.tag}: blocking and awaitable paths emit different device writes {tuples}", {"module": stem, "item": ref.tag, "value": value, "tuples": {k: list(v) for k, v in tuples.items()}})
 
